@@ -159,3 +159,23 @@ Proof.
   split; [exact Hs|]. apply c14_model_check_spec_check; [exact Hs|].
   cbn [model_check]. change (N.to_nat 64) with 64%nat. rewrite E. cbn [Batch.oeqb]. apply ProofsCorr.lzeqb_refl.
 Qed.
+
+(** * the generic generator, the jump, histories *)
+Example ex_generic_instance : gnext lcg_A lcg_C 42 = rng_next 42.
+Proof. apply (c14_generic_instance 42). Qed.
+Example ex_generic_counter : opt_snd (raws (gnext 1 1) 3 (from_seed 5)) = Some [6; 7; 8].
+Proof. vm_compute. reflexivity. Qed.
+Example ex_jump : lcg_jump lcg_A lcg_C 1000 42 = state_after 1000 42 /\ lcg_jump 5 3 4 1 = 1093.
+Proof. split; [rewrite c14_jump_is_iterated_step; reflexivity|reflexivity]. Qed.
+(** a history: a draw, a long silent run, two shuffles (the second continues the stream), an f64 draw, a copy
+    (the raw drawn by the original is the next raw of the copy) *)
+Example ex_mix_run :
+  mix_run lcg_A lcg_C [MDraw false 8 (FRange 0 4); MSkip 100000; MShuf 5; MShuf 5;
+                       MFloat 0 4607182418800017408; MCopy; MRaw; MDraw true 8 (FRange 3 3); MRaw] (from_seed 42)
+  = [Some [0]; Some [5398859907229714167]; Some [1; 0; 4; 2; 3]; Some [2; 4; 3; 0; 1]; Some [4604278746016977196];
+     Some [407143487357440990]; Some [407143487357440990]; None].
+Proof. vm_compute. reflexivity. Qed.
+Example ex_mix_corr :
+  let c := CMix 5 3 7 [MRaw; MShuf 3; MDraw true 8 (FIncl (-2) 2)] [Some [38]; Some [0; 1; 2]; Some [1]] in
+  in_scope c = true /\ model_check c = true /\ spec_check c = true.
+Proof. split; [reflexivity|]. split; [reflexivity|apply c14_model_check_spec_check; reflexivity]. Qed.
